@@ -69,7 +69,7 @@ Fixpoint model_history (idn : identity) (code oid : Z) (fuel : nat) : list obs *
                 let '(os, e) := model_history idn code (rs_next r) f in (OResp len r :: os, e)
               else ([OResp len r], EDone)
           | DOk (RExc fc e) => ([OExc len fc e], EStopped)
-          | DRaise e => ([ORaise e], EStopped)
+          | DRaise _ => ([ORaise OtherExc], EStopped)   (* ClientDecoder.decode swallows every exception and returns None *)
           | DOutOfFuel => ([ORaise OtherExc], EStopped)
           end
       end
@@ -124,3 +124,71 @@ Definition chk_chain (C : devinfo_code) (c : chain_case) : bool * bool :=
   let '(os, e) := model_history C (id_of (cc_ids c)) (cc_code c) (cc_oid c) (cc_limit c) in
   (list_eqb obs_eqb os (cc_obs c) && obs_end_eqb e (cc_end c),
    prop_chain (cc_ids c) (cc_code c) (cc_oid c) (cc_obs c) (cc_end c)).
+
+(* ================================================================== multi-item / text values *)
+From PM.theories Require Import DevInfoMulti.
+
+Section WithCodeM.
+Variable C : devinfo_code.
+
+Fixpoint model_mhistory (idn : midentity) (code oid : Z) (fuel : nat) : list obs * obs_end :=
+  match fuel with
+  | O => ([], ELimit)
+  | S f =>
+      match mserver_reply C idn code oid with
+      | Raise e => ([ORaise e], EStopped)
+      | Ok pdu =>
+          let len := Z.of_nat (length pdu) in
+          match decode_reply C pdu with
+          | DOk (RResp r) =>
+              if rs_more r =? 255 then
+                let '(os, e) := model_mhistory idn code (rs_next r) f in (OResp len r :: os, e)
+              else ([OResp len r], EDone)
+          | DOk (RExc fc e) => ([OExc len fc e], EStopped)
+          | DRaise _ => ([ORaise OtherExc], EStopped)   (* ClientDecoder.decode swallows every exception and returns None *)
+          | DOutOfFuel => ([ORaise OtherExc], EStopped)
+          end
+      end
+  end.
+
+End WithCodeM.
+
+Definition mvalue_items (v : mvalue) : list item := match v with MOne i => [i] | MMany l => l end.
+
+(* quantifier: ids 0-6 / 0x80-0xFF, every item at most 245 long (as Python measures it) *)
+Definition m_in_quantifier (ids : list mobject) : bool :=
+  forallb (fun o => forallb (fun i => it_len i <=? 245) (mvalue_items (snd o))
+                    && (existsb (Z.eqb (fst o)) extended_ids || negb (truthy (snd o)))) ids.
+
+Definition mstart_ok (idn : midentity) (code oid : Z) : bool :=
+  (oid =? 0) || (existsb (Z.eqb oid) (category code) && truthy (idn oid)).
+
+Definition prop_mchain (ids : list mobject) (code oid : Z) (os : list obs) (e : obs_end) : bool :=
+  let idn := mid_of ids in
+  let terminates := match e with ELimit => false | _ => true end in
+  forallb obs_len_ok os
+  && (if negb ((0 <=? oid) && (oid <=? 255)) then true
+      else if negb ((1 <=? code) && (code <=? 4)) then
+        match os with [OExc _ _ c] => c =? 3 | _ => false end
+      else if negb (m_in_quantifier ids) then true
+      else
+        terminates
+        && (if code =? 4 then
+              if existsb (Z.eqb oid) individual_ids && truthy (idn oid) then
+                obs_end_eqb e EDone && all_responses os
+                && list_eqb object_eqb (flat_map obs_objects os)
+                            (map (fun i => (oid, it_wire i)) (mvalue_items (idn oid)))
+              else true
+            else if mstart_ok idn code oid then
+              obs_end_eqb e EDone && all_responses os
+              && list_eqb object_eqb (flat_map obs_objects os) (mexpected idn code oid)
+            else true)).
+
+Record mchain_case := {
+  mc_ids : list mobject; mc_code : Z; mc_oid : Z; mc_limit : nat;
+  mc_obs : list obs; mc_end : obs_end }.
+
+Definition chk_mchain (C : devinfo_code) (c : mchain_case) : bool * bool :=
+  let '(os, e) := model_mhistory C (mid_of (mc_ids c)) (mc_code c) (mc_oid c) (mc_limit c) in
+  (list_eqb obs_eqb os (mc_obs c) && obs_end_eqb e (mc_end c),
+   prop_mchain (mc_ids c) (mc_code c) (mc_oid c) (mc_obs c) (mc_end c)).
